@@ -35,7 +35,7 @@ COST_PROBLEMS = [(ft, "%s#%s" % (m, c)) for c in COST_IDS for ft, m in (("xy", "
 PROBLEMS = PROBLEMS + COST_PROBLEMS
 MIX_KINDS = ["y-abs", "y-abs-rho", "y-cov", "y-rel"]
 CONS = [(), ("simple",), ("matrix-cov",), ("simple-rel", "matrix-cor")]
-MIX_GROUPS = 4  # the ten source mixes of a cost-identifier problem are spread over this many jobs
+MIX_GROUPS = 2  # the ten source mixes of a cost-identifier problem are spread over this many jobs
 CONS_COST = [(), ("simple-rel", "matrix-cor")]  # constraint sets / starting points of the cost-identifier problems
 
 
@@ -271,10 +271,10 @@ def execute_wrapper(wname, model, errset, combo, v):
 
 
 def run_wrapper_job(spec):
-    _, wi, errset, v, tier = spec
+    _, wi, eg, v, tier = spec
     wname, model = WRAPPER_PROBLEMS[wi]
     res = JobResult()
-    for combo in wrapper_combos():
+    for errset, combo in itertools.product(WRAPPER_ERRSETS[eg::2], wrapper_combos()):
         hist = [dict(wrapper=wi, errset=errset, combo=list(combo), v=v)]
         sg = "wrapper/%s/%s|%s|%s" % (wname, model, errset, "+".join(combo) or "plain")
         try:
@@ -295,7 +295,7 @@ def run_wrapper_job(spec):
         res.facts["problem:wrapper"] += 1
         for o, e, a, md in bad:
             res.violation(sg, hist, o, e, a, md)
-    res.sample(dict(kind="wrapper", wrapper=wname, model=model, errset=errset, combos=["+".join(c) for c in wrapper_combos()][:6]))
+    res.sample(dict(kind="wrapper", wrapper=wname, model=model, errsets=WRAPPER_ERRSETS[eg::2], combos=["+".join(c) for c in wrapper_combos()][:6]))
     return res.as_dict()
 
 
@@ -317,8 +317,8 @@ def jobs(tier, seed):
             for backend in ("iminuit", "scipy"):
                 specs.append(("multi", ci, backend, vv, tier))
         for wi in range(len(WRAPPER_PROBLEMS)):
-            for errset in WRAPPER_ERRSETS:
-                specs.append(("wrapper", wi, errset, vv, tier))
+            for eg in range(2):
+                specs.append(("wrapper", wi, eg, vv, tier))  # the uncertainty-keyword sets eg, eg + 2, ...
     return specs
 
 
